@@ -54,6 +54,15 @@ theorem accepted_clean (ops : Ops DT Val) (c : ClassDesc DT Val) (cfg : Cfg Val)
       rw [List.find?_eq_none] at hf
       have := hf d hd
       simp [hm, hnone] at this
+  | cmdProp n items k v hn hcfg hkv hbad =>
+    have hok := (Lemmas.ConfigDsl.cmds_ok ops cfg c.otherNames ⟨[], false⟩ rfl acc.cmRaised acc.cmErrs).2 n hn
+    rw [hcfg] at hok
+    simp only [addCommand] at hok
+    obtain ⟨f, hf, hs⟩ := Lemmas.ConfigDsl.cmdEntries_nil ops n items hok (k, v) hkv
+    simp only [hf] at hbad
+    cases hfv : f v with
+    | none => rw [hfv] at hs; cases hs
+    | some _ => rw [hfv] at hbad; cases hbad
   | param pd dt0 dflt items hpd hs hcfg hoff =>
     obtain ⟨outs, o, _, _, _, _, pk, hchk⟩ := accepted_param ops c cfg i acc wf pd hpd dt0 dflt hs
     rw [items_eq pd cfg items hcfg] at hoff
@@ -505,6 +514,8 @@ def toyOps : Ops (Int × Int) Int :=
     checkDT := fun dt => decide (dt.1 ≤ dt.2),
     dtDefault := fun dt => dt.1,
     ownProp := fun k => if k = "readonly" then some (fun v => if v = 0 ∨ v = 1 then some v else none) else none,
+    cmdProp := fun k => if k = "visibility" then some (fun v => if 1 ≤ v ∧ v ≤ 3 then some v else none) else none,
+    cmdRaises := fun _ v => decide (100 ≤ v),
     limitDT := fun _ dt => dt,
     limitDefault := fun _ dt => dt.2 }
 
@@ -565,6 +576,17 @@ example : Offence toyOps exClass [("description", .prop (.bare 7)), ("pa", .acc 
 /-- an unknown parameter property is an offence of the proved kind -/
 example : Offence toyOps exClass [("description", .prop (.bare 7)), ("pa", .acc [("nosuch", 1)])] :=
   .param exParam (0, 10) (some 1) [("nosuch", 1)] (List.mem_singleton.2 rfl) rfl (Or.inl rfl) (.badProp rfl)
+
+/-- a command configured with an unknown property, or an ill-typed one, is an offence … -/
+example : Offence toyOps { exClass with otherNames := ["go"] } (exCfg ++ [("go", .acc [("visibility", 2), ("nosuch", 1)])]) :=
+  .cmdProp "go" [("visibility", 2), ("nosuch", 1)] "nosuch" 1 (List.mem_singleton.2 rfl) rfl (by simp) rfl
+
+/-- … and the model reports it (collected, not raised); a well-typed property of a command is accepted -/
+example : (match applyConfig toyOps { exClass with otherNames := ["go"] } (exCfg ++ [("go", .acc [("visibility", 2), ("nosuch", 1)])]),
+      applyConfig toyOps { exClass with otherNames := ["go"] } (exCfg ++ [("go", .acc [("visibility", 9)])]),
+      applyConfig toyOps { exClass with otherNames := ["go"] } (exCfg ++ [("go", .acc [("visibility", 2)])]) with
+    | .error e1, .error e2, .ok _ => e1 == [.unknownProp "go" "nosuch"] && e2 == [.badValue "go" "visibility"]
+    | _, _, _ => false) = true := by decide
 
 def exLimit : ParamDesc (Int × Int) Int :=
   { name := "pa_max", dt := none, limit := some .max, base := "pa", value := none, default := none,
